@@ -291,6 +291,31 @@ fn main() {
     println("registered", base + 1);
 }
 `},
+		{"small:loop-body-with-literals-of-every-kind", `fn main() {
+    let total = 0;
+    for i in 0..3 {
+        let m: ?int = none;
+        let e = new { ? };
+        let q = new { k: i };
+        if q.k > 1 { break; }
+        total += m.unwrap_or(1) + e.keys().len();
+        null;
+    }
+    println(total);
+}
+`},
+		{"small:loop-body-with-closure-cast-and-match", `fn pick(n: int) -> int { match n { 1 => 20, _ => 30 } }
+fn main() {
+    let total = 0;
+    for i in 0..3 {
+        let g = fn(y: int) -> int { y };
+        let c = (i as float) as int;
+        if pick(i) == 20 { continue; }
+        total += g(c) + (0..i).end;
+    }
+    println(total);
+}
+`},
 		{"small:multiplication-by-zero-and-one", `fn scale(a: int, b: int) -> int { a * b }
 fn main() {
     for i in 0..3 { println(scale(3, i), scale(i, 3), i * 0, 5 * i); }
